@@ -522,6 +522,48 @@ Definition untar_legacy := untar_gen Trusted.
 Definition untar_data_only := untar_gen DataOnly.
 Definition untar_no_revalidation := untar_gen Repaired.
 
+(* ---------------------------------------------------------------- the install directory as the caller spells it
+   untar_file receives a TEXT (tools/kapture_download_dataset.py passes --install_path through unchanged): absolute,
+   or relative to the working directory of the process, possibly through symbolic links.  Every system call of the
+   extraction is made on join(text, member name) and resolved by the kernel when it is made; the checks of the filter
+   and the final scan of the links use os.path.realpath(text), computed when they run.  The directory a call works in
+   is therefore the one its text denotes in the file system AT THE TIME OF THE CALL — never what the same text denoted
+   for an earlier call of the process (another working directory, a link re-pointed since). *)
+Definition spelled_start (cwd : rpath) (text : string) : rpath := if is_abs text then [] else cwd.
+
+(* where the kernel lands for the text (os.makedirs(text, exist_ok=True) succeeds without creating anything iff this
+   is an existing directory) *)
+Definition install_dir (s : state) (cwd : rpath) (text : string) : option rpath :=
+  match walk Strict s FUEL [] (spelled_start cwd text) (comps text) with
+  | WOk R => if is_dir s R then Some R else None
+  | _ => None
+  end.
+
+(* what the filter and the link scan compute: os.path.realpath(text) *)
+Definition install_realpath (s : state) (cwd : rpath) (text : string) : option rpath :=
+  realpath s (spelled_start cwd text) (comps text).
+
+(* untar_file(archive, text) called from the working directory cwd; None = the text does not denote an existing
+   directory (creation of the install directory itself is not modelled) *)
+Definition untar_spelled (cwd : rpath) (text : string) (ms : list member) (s : state) : option (outcome * state) :=
+  match install_dir s cwd text with
+  | Some R => Some (untar R ms s)
+  | None => None
+  end.
+
+(* a process that calls untar_file several times: (working directory, text, archive) of each call, in order.  The
+   model carries NOTHING from one call to the next but the file system. *)
+Definition call := (rpath * string * list member)%type.
+Fixpoint run_calls (calls : list call) (s : state) : state :=
+  match calls with
+  | [] => s
+  | (cwd, text, ms) :: rest =>
+      match untar_spelled cwd text ms s with
+      | Some (_, s') => run_calls rest s'
+      | None => run_calls rest s
+      end
+  end.
+
 (* ---------------------------------------------------------------- correspondence cases *)
 Inductive onode := ODir | OFile (ino : nat) (data : string) (orw : bool) | OSym (t : string) | OSpecial.
 Inductive lverdict := LAcc | LRej (e : ferr) | LOther.
@@ -530,6 +572,8 @@ Record case := {
   c_P : list string;                          (* the sandbox directory that contains install/, from "/" *)
   c_pre : list (list string * onode);         (* initial tree below c_P (paths relative to c_P) *)
   c_members : list member;
+  c_cwd : list string;                        (* working directory of the call, from "/" *)
+  c_text : string;                            (* the install directory as spelled in the call *)
   o_outcome : outcome;                        (* what untar_file did: class of the exception *)
   o_final : list (list string * onode);       (* resulting tree below c_P *)
   o_outside_same : bool;                      (* nothing outside install/ changed *)
@@ -598,7 +642,12 @@ Definition check_case (c : case) : bool :=
   let rP := rev (c_P c) in
   let R := "install" :: rP in
   let s0 := init_state (c_P c) (c_pre c) in
-  let '(o, s') := untar R (c_members c) s0 in
+  (* the text of the call must denote <P>/install (resolved once here: [untar_spelled] unfolded) *)
+  match install_dir s0 (rev (c_cwd c)) (c_text c) with
+  | None => false
+  | Some R' =>
+  let '(o, s') := untar R' (c_members c) s0 in
+  eqb R' R &&
   lib_agrees s0 R (c_members c) (o_lib c) &&
   match o with
   | OFuel => o_outside_same c
@@ -608,4 +657,5 @@ Definition check_case (c : case) : bool :=
       && forallb (fun e => node_matches s' (fst e) (snd e)) fin
       && (List.length (nodes s') =? List.length (c_P c) + List.length (o_final c))%nat
       && classes_agree s' fin
+  end
   end.
